@@ -24,6 +24,10 @@ def run(ctx):
     ctx.rule("R10.x", "context-manager model: _batch_call_watchers, batch_call_watchers, discard_events, _syncing and edit_constant interpreted abstractly with the body of the `with` supplied at the `yield` (62 cases: entry state x body ends normally / raises x nesting x queues replaced in the body x Parameter copies made in the body): flag, queues, syncing set and constant flags are, after the block, what they were before; the flush runs iff outermost, after the restore, also when the body raised", floor=1)
     ctx.rule("R10.r", "update-context exit: _ParametersRestorer.__exit__ interpreted abstractly (3 cases) assigns back every recorded previous value -- also one identical to the current value -- and every remembered reference in one update, and forgets the record, also when that update raises", floor=1)
     ctx.rule("R10.o", "asynchronous results are collected in input order, not in completion order: no function of param collects awaited results through asyncio.as_completed / asyncio.wait (rx.map over a coroutine returns its results in the order of the input whatever order the awaitables finish in)", floor=1)
+    ctx.rule("R10.t", "trigger model: Parameters.trigger interpreted abstractly, also on an instance whose only reference is a dependency-free asynchronous one (refs / async_refs entries, no "
+                      "source watchers): the re-announcing write-back runs inside a _syncing scope naming the triggered parameters, so it is not taken for an override that cancels the pending evaluation", floor=1)
+    ctx.rule("R10.x", "executor order: param._utils.async_executor interpreted with a running loop for three back-to-back calls, then the callbacks it handed to the loop: every call becomes a "
+                      "task exactly once and the tasks are created in call order (supersession assumes that what was scheduled later starts later)", floor=1)
     ctx.rule("R10.s", "sync model, asynchronous link: Parameters._sync_refs interpreted with a parameter that follows a coroutine function bound to S.a, an event for S.a arriving at an ordinary "
                       "moment / while the link's own previous result is being delivered / while another parameter is synced: exactly one new evaluation is scheduled, for the inputs as they are now", floor=1)
     ctx.rule("R10.a", "the body of every `with _syncing(...)` contains no suspension point (await / async for / async with / yield)", floor=3)
@@ -281,6 +285,10 @@ def run(ctx):
     rx_model.report(ctx, "R10.n")
     from checks.shared import sync_refs_async
     sync_refs_async(ctx, "R10.s")
+    from checks import trigger_model
+    trigger_model.report(ctx, "C10", "R10.t")
+    from checks import async_model
+    async_model.executor_order_model(ctx, "R10.x")
     from checks import setter_model
     setter_model.report(ctx, "C10", "R10.m")
     from checks import cm_model
